@@ -327,6 +327,21 @@ class Engine(_Base, ExprMixin, CallMixin, StmtMixin):
             allowed = lists
         else:
             return None
+        if z3.is_app(now) and now.decl().kind() == z3.Z3_OP_ITE:
+            # a merged or conditionally modified map: both cases separately
+            c, a, b = now.arg(0), now.arg(1), now.arg(2)
+            ga = self._frame_goal_allowed(allowed, a, was, alloc0)
+            gb = self._frame_goal_allowed(allowed, b, was, alloc0)
+            return z3.And(z3.Implies(c, ga), z3.Implies(z3.Not(c), gb))
+        return self._frame_goal_allowed(allowed, now, was, alloc0)
+
+    def _frame_goal_allowed(self, allowed, now, was, alloc0):
+        if now.eq(was):
+            return z3.BoolVal(True)
+        if z3.is_app(now) and now.decl().kind() == z3.Z3_OP_ITE:
+            c, a, b = now.arg(0), now.arg(1), now.arg(2)
+            return z3.And(z3.Implies(c, self._frame_goal_allowed(allowed, a, was, alloc0)),
+                          z3.Implies(z3.Not(c), self._frame_goal_allowed(allowed, b, was, alloc0)))
         chain, t = [], now
         while z3.is_app(t) and t.decl().kind() == z3.Z3_OP_STORE:
             chain.append((t.arg(1), t.arg(2)))
@@ -343,7 +358,7 @@ class Engine(_Base, ExprMixin, CallMixin, StmtMixin):
         if key[0] == 'f':
             return '%s/frame[.%s]' % (name, key[1]), 'writes to .%s outside `modifies`' % key[1]
         if key[0] in ('dd', 'dv'):
-            return '%s/frame[dict-contents]' % name, 'changes a dictionary outside `modifies`'
+            return '%s/frame[dict-contents%s]' % (name, ':' + str(key[-1]) if key[-1] else ''), 'changes a dictionary outside `modifies`'
         return '%s/frame[list-contents]' % name, 'changes a list outside `modifies`'
 
     def check_frame(self, c, info, finals, entry, env, written):
